@@ -120,16 +120,83 @@ def _draw_mask_repr(rng, allow_float=True):
     return (dt, _pick(rng, ['C', 'C', 'F', 'view']))
 
 
+PLAIN_FORMS = dict(box='plain', fsize='plain', p='plain', fill='plain', data='plain', layout='C')
+
+
+def _pair_form(v, form):
+    if form == 'plain':
+        return v
+    pair = (v, v) if np.isscalar(v) else tuple(v)
+    if form == 'list':
+        return list(pair)
+    if form == 'tuple':
+        return tuple(int(x) for x in pair)
+    if form == 'array':
+        return np.array(pair)
+    if form == 'array_int32':
+        return np.array(pair, np.int32)
+    return (np.int64(pair[0]), np.int16(pair[1]))
+
+
+def _scalar_form(v, form):
+    """Equivalent spelling of a float argument; forms that cannot hold the value exactly fall back."""
+    v = float(v)
+    if form == 'numpy_float64':
+        return np.float64(v)
+    if form == 'array_0d':
+        return np.array(v)
+    if form == 'numpy_float32' and v == v and float(np.float32(v)) == v:
+        return np.float32(v)
+    if form == 'python_int' and v == v and v == int(v):
+        return int(v)
+    if form == 'numpy_int' and v == v and v == int(v) and abs(v) < 30000:
+        return np.int16(v)
+    return v
+
+
+def materialize_data(data, form, layout):
+    a = data.copy()
+    if layout == 'F':
+        a = np.asfortranarray(a)
+    elif layout == 'view':
+        big = np.full((2 * a.shape[0] + 1, 2 * a.shape[1] + 3), 7, a.dtype)
+        big[1::2, 2:2 * a.shape[1] + 2:2] = a
+        a = big[1::2, 2:2 * a.shape[1] + 2:2]
+    elif layout == 'big_endian':
+        a = a.astype(a.dtype.newbyteorder('>'))
+    if form == 'quantity' and a.dtype.kind == 'f':
+        import astropy.units as u
+        return u.Quantity(a, u.mJy, copy=False)
+    if form in ('nddata', 'nddata_unit') or (form == 'quantity' and a.dtype.kind != 'f'):
+        import astropy.units as u
+        from astropy.nddata import NDData
+        return NDData(a, unit=u.adu if form == 'nddata_unit' else None)
+    if form == 'list':
+        return a.tolist()
+    return a
+
+
+def expected_unit(spec):
+    f = spec.get('forms', PLAIN_FORMS)
+    if f['data'] == 'quantity' and spec['data'].dtype.kind == 'f':
+        return 'mJy'
+    if f['data'] == 'nddata_unit':
+        return 'adu'
+    return None
+
+
 def b2d_kwargs(spec, **over):
     s = dict(spec)
     s.update(over)
+    f = s.get('forms', PLAIN_FORMS)
     kw = dict(mask=materialize_mask(s['mask'], s.get('mask_repr', PLAIN)),
               coverage_mask=materialize_mask(s['cov'], s.get('cov_repr', PLAIN)),
-              fill_value=s['fill'], exclude_percentile=s['p'], filter_size=s['fsize'],
+              fill_value=_scalar_form(s['fill'], f['fill']),
+              exclude_percentile=_scalar_form(s['p'], f['p']), filter_size=_pair_form(s['fsize'], f['fsize']),
               filter_threshold=s['thr'], sigma_clip=make_sigma_clip(s['sc']),
               bkg_estimator=make_estimator(s['bkg']), bkgrms_estimator=make_estimator(s['rms']),
               interpolator=make_interp(s['interp']))
-    return s['data'].copy(), s['box'], kw
+    return materialize_data(s['data'], f['data'], f['layout']), _pair_form(s['box'], f['box']), kw
 
 
 def construct(spec, **over):
@@ -145,7 +212,10 @@ def outputs(b):
     rmesh = np.array(b.background_rms_mesh)
     return dict(mesh=mesh, rmesh=rmesh, npix=np.array(b.npixels_mesh),
                 bkg=np.array(b.background), rms=np.array(b.background_rms),
-                med=np.array(b.background_median), rmed=np.array(b.background_rms_median))
+                med=np.array(b.background_median), rmed=np.array(b.background_rms_median),
+                units=[str(getattr(getattr(b, n), 'unit', None)) for n in
+                       ('background_mesh', 'background_rms_mesh', 'background', 'background_rms',
+                        'background_median', 'background_rms_median')])
 
 
 # ----------------------------------------------------------------------
@@ -165,6 +235,14 @@ def _shape_box(rng, cls):
             my += 1
         if bx * mx < 3:
             mx += 1
+        r = rng.random()
+        if r < 0.14:
+            # strongly elongated / single-row / single-column images (accepted by the unchanged library)
+            by, my = int(_pick(rng, [1, 1, 2, 3])), int(_pick(rng, [1, 1, 1, 2]))
+            bx = int(rng.integers(2, 13))
+            mx = int(rng.integers(2, max(3, min(10, 70 // bx) + 1)))
+            if r < 0.07:
+                by, my, bx, mx = bx, mx, by, my
         return (by * my, bx * mx), (by, bx)
 
     if cls == 'tiny':
@@ -173,6 +251,11 @@ def _shape_box(rng, cls):
         return (ny, nx), (by, bx)
     if cls == 'box_eq_image':
         ny, nx = int(rng.integers(3, 41)), int(rng.integers(3, 41))
+        r = rng.random()
+        if r < 0.15:
+            ny, nx = int(_pick(rng, [1, 1, 2, 3])), int(rng.integers(10, 71))
+            if r < 0.07:
+                ny, nx = nx, ny
         return (ny, nx), (ny, nx)
     if cls == 'box_gt_half':
         ny, nx = int(rng.integers(5, 61)), int(rng.integers(5, 61))
@@ -187,8 +270,12 @@ def _shape_box(rng, cls):
     if cls == 'divides':
         return (ny, nx), (by, bx)
     if cls in ('pad_row', 'pad_corner'):
+        if by == 1:
+            by, ny = 2, 2 * ny
         ny = min(70, ny + int(rng.integers(1, by)))
     if cls in ('pad_col', 'pad_corner'):
+        if bx == 1:
+            bx, nx = 2, 2 * nx
         nx = min(70, nx + int(rng.integers(1, bx)))
     if cls in ('pad_row', 'pad_col', 'pad_corner'):
         # make sure the class is what it says
@@ -214,7 +301,7 @@ def _image(rng, shape, kind):
         data = rng.integers(lo, lo + int(rng.integers(2, 6)), size=shape).astype(float)
         if rng.random() < 0.5:
             data *= 0.5
-        return data
+        return data, 1.0
     level = float(_pick(rng, [0.0, 5.0, 100.0, 1000.0, -20.0, 3.25e4]))
     sig = float(_pick(rng, [0.5, 1.0, 3.0, 10.0]))
     gy, gx = rng.normal(0, 0.15, 2) * sig
@@ -227,7 +314,7 @@ def _image(rng, shape, kind):
             cy, cx = rng.uniform(0, ny), rng.uniform(0, nx)
             w = rng.uniform(0.7, 3.0)
             data += 50 * sig * np.exp(-((yy - cy) ** 2 + (xx - cx) ** 2) / (2 * w * w))
-    return data
+    return data, sig
 
 
 def _mask(rng, shape, box, kind):
@@ -347,7 +434,7 @@ def make_scene(rng, cls):
     ny, nx = shape
     by, bx = box
     kind = 'ties' if cls == 'ties' else ('outliers' if cls == 'outliers' else 'noise')
-    data = _image(rng, shape, kind)
+    data, sig = _image(rng, shape, kind)
 
     mkind = _pick(rng, ['none', 'none', 'sparse', 'sparse', 'blobs', 'boxes', 'rows'])
     if cls == 'whole_box_masked':
@@ -391,7 +478,7 @@ def make_scene(rng, cls):
                                clip=bool(rng.random() < 0.7)))
     fsize = _fsize(rng, force=cls in ('filter', 'filter_thr'))
     thr_mode = None
-    if cls == 'filter_thr' or (fsize != 1 and rng.random() < 0.1):
+    if cls == 'filter_thr' or (fsize != 1 and rng.random() < 0.2):
         thr_mode = _pick(rng, ['below', 'above', 'mid', 'mid', 'mid', 'tie', 'tie'])
 
     # NaN / inf in the data
@@ -457,11 +544,76 @@ def make_scene(rng, cls):
     dt = 'float64'
     if cls == 'float32' or (cls not in ('int_dtype', 'ties', 'constant') and rng.random() < 0.06):
         dt = 'float32'
-    if cls == 'int_dtype':
+    if cls == 'int_dtype' or (cls not in ('float32', 'ties', 'constant', 'boundary') and rng.random() < 0.03):
         dt = _pick(rng, ['int32', 'int64', 'uint16', 'int16'])
+
+    # DEGENERATE inputs (any class): rarely used branches
+    meta['degenerate'] = None
+    if rng.random() < 0.07 and cls != 'boundary':
+        my_, mx_ = -(-ny // by), -(-nx // bx)
+        mode = _pick(rng, ['one_box_left', 'one_box_left', 'all_masked', 'coverage_all', 'coverage_whole_boxes',
+                           'mask_all_but_one_pixel_per_box'])
+        meta['degenerate'] = mode
+        if mode == 'one_box_left':
+            j, i = int(rng.integers(0, my_)), int(rng.integers(0, mx_))
+            m2 = np.ones(shape, bool)
+            m2[j * by:(j + 1) * by, i * bx:(i + 1) * bx] = False
+            if rng.random() < 0.5:
+                mask = m2 if mask is None else (mask | m2)
+            else:
+                cov = m2
+            p = float(_pick(rng, [p, 100.0, 100.0, 99.0]))
+        elif mode == 'all_masked':
+            mask = np.ones(shape, bool)
+        elif mode == 'coverage_all':
+            cov = np.ones(shape, bool)
+        elif mode == 'coverage_whole_boxes':
+            cov = _mask(rng, shape, box, 'boxes')
+        else:
+            m2 = np.ones(shape, bool)
+            for j in range(my_):
+                for i in range(mx_):
+                    sub = m2[j * by:(j + 1) * by, i * bx:(i + 1) * bx]
+                    sub.flat[int(rng.integers(0, sub.size))] = False
+            mask = m2
+            p = 100.0
+
+    # MAGNITUDE (any class, about half of the floating cases stay plain): overall scale 2**-60..2**40 or
+    # 1e-20..1e10 and / or a pedestal with level/noise up to 1e9 (float64) or 1e3 (float32). The transform
+    # data -> s * (data + pedestal) is applied to everything value-like derived from the data (M, constant).
+    mag_s, mag_ped, mag_kind = 1.0, 0.0, 'plain'
+    if dt in ('float64', 'float32') and rng.random() < 0.5:
+        mag_kind = _pick(rng, ['scale_pow2', 'scale_pow2', 'scale_dec', 'pedestal', 'pedestal', 'both'])
+        f32 = dt == 'float32'
+        if mag_kind in ('scale_pow2', 'both'):
+            mag_s = 2.0 ** int(rng.integers(-40, 31) if f32 else rng.integers(-60, 41))
+        elif mag_kind == 'scale_dec':
+            mag_s = 10.0 ** int(rng.integers(-12, 9) if f32 else rng.integers(-20, 11))
+        if mag_kind in ('pedestal', 'both'):
+            ratio = float(_pick(rng, [30.0, 1e2, 1e3] if f32 else [1e3, 1e5, 1e7, 1e8, 1e9]))
+            mag_ped = float(np.round(ratio * sig * float(_pick(rng, [1.0, 1.0, -1.0]))))
+            meta['pedestal_ratio'] = ratio
+
+        def tr(x):
+            return mag_s * (x + mag_ped)
+        data = tr(data)
+        for d_ in (bkg[1], rms[1]):
+            if 'M' in d_:
+                d_['M'] = float(tr(d_['M']))
+        if meta['const'] is not None:
+            meta['const'] = float(mag_s * meta['const'])
+            data = np.where(np.isfinite(data), meta['const'], data)
+    meta['mag'] = mag_kind
+    meta['mag_scale'] = mag_s
+    meta['unit'] = mag_s * sig            # noise amplitude of the generated image
+
     if dt == 'float32':
-        # multiples of 1/64 so that float32 shifts by dyadic constants are exact
-        data = (np.round(data * 64.0) / 64.0).astype(np.float32)
+        # multiples of unit/64 so that float32 shifts by dyadic multiples of the unit are exact
+        if mag_kind == 'scale_dec':
+            data = data.astype(np.float32)
+        else:
+            q = mag_s / 64.0
+            data = (np.round(data / q) * q).astype(np.float32)
         fill = float(np.float32(fill))
     elif dt != 'float64':
         d = np.where(np.isfinite(data), data, 0.0)
@@ -471,9 +623,9 @@ def make_scene(rng, cls):
         if dt in ('int16',):
             data = np.clip(data, -30000, 30000)
         data = data.astype(dt)
-        fill = float(int(fill))
         if fill != fill:
             fill = 0.0
+        fill = float(int(fill))
         if dt == 'uint16' and fill < 0:
             fill = 0.0
 
@@ -484,7 +636,21 @@ def make_scene(rng, cls):
     # unchanged library in any numeric dtype (non-zero = masked); a floating coverage_mask is rejected
     # (IndexError when the map is built), so coverage_mask is drawn from bool and the integer dtypes.
     spec['mask_repr'] = _draw_mask_repr(rng, allow_float=True)
-    spec['cov_repr'] = _draw_mask_repr(rng, allow_float=False)
+    spec['cov_repr'] = _draw_mask_repr(rng, allow_float=True)
+    # CALL FORM of the scalar / pair arguments and container / layout of the data, drawn independently
+    forms = dict(box='plain', fsize='plain', p='plain', fill='plain', data='plain', layout='C')
+    if rng.random() < 0.5:
+        pair_forms = ['plain', 'list', 'tuple', 'array', 'array_int32', 'numpy_scalars']
+        scalar_forms = ['plain', 'python_int', 'numpy_float64', 'numpy_float32', 'array_0d', 'numpy_int']
+        forms['box'] = _pick(rng, pair_forms)
+        forms['fsize'] = _pick(rng, pair_forms)
+        forms['p'] = _pick(rng, scalar_forms)
+        forms['fill'] = _pick(rng, scalar_forms)
+        forms['data'] = _pick(rng, ['plain', 'plain', 'quantity', 'quantity', 'nddata', 'nddata_unit', 'list'])
+        if forms['data'] == 'list' and rng.random() < 0.7:
+            forms['data'] = 'plain'
+        forms['layout'] = _pick(rng, ['C', 'F', 'view', 'big_endian', 'C'])
+    spec['forms'] = forms
     meta.update(thr_mode=thr_mode, dtype=dt, shape=[ny, nx], box=[by, bx])
     return spec, meta
 
@@ -496,6 +662,8 @@ def describe(spec, meta):
                 mask_repr=list(spec.get('mask_repr', PLAIN)) if spec['mask'] is not None else None,
                 cov_repr=list(spec.get('cov_repr', PLAIN)) if spec['cov'] is not None else None,
                 fill=spec['fill'], p=spec['p'], fsize=spec['fsize'], thr_mode=meta['thr_mode'],
+                forms=spec.get('forms'), mag=[meta.get('mag'), meta.get('mag_scale'), meta.get('pedestal_ratio')],
+                degenerate=meta.get('degenerate'),
                 sc=spec['sc'], bkg=[spec['bkg'][0], spec['bkg'][1], spec['bkg'][2]],
                 rms=[spec['rms'][0], spec['rms'][1], spec['rms'][2]],
                 interp=[spec['interp'][0], spec['interp'][1]],
